@@ -155,7 +155,10 @@ def check_proposals(dd, exprs, acc, case, counts, traps):
                         V('bad-declaration', model.render(dp)[:200])
                         continue
                     name = dp[1]
-                    still_declared = declared_symbols([c for c in rplain if c != dp])
+                    rest = list(rplain)
+                    if dp in rest:
+                        rest.remove(dp)  # the introduced one only - an identical older declaration stays
+                    still_declared = declared_symbols(rest)
                     if name in seen or name in still_declared:
                         V('redeclared', f'introduces {model.render(dp)} but {name} is already declared')
                     seen.add(name)
@@ -234,7 +237,7 @@ def add_traps(draw, s):
         extra.append(['assert', ['str.contains', plain_strs[-1], draw(st.sampled_from(['"q"', '"a b"']))]])
         traps.add('str.contains-variable')
     elif plain_strs and draw(st.booleans()):
-        extra.append(['declare-const', plain_strs[0] + '_prefix', 'String'])
+        extra.append(['declare-const', plain_strs[0] + draw(st.sampled_from(['_prefix', '_suffix'])), 'String'])
         extra.append(['assert', ['str.contains', plain_strs[0], '"q"']])
         traps.add('prefix-name-taken')
     if draw(st.booleans()):
